@@ -835,6 +835,54 @@ def _t_arith_spellings(srcs):
             R().visit(tree)
 
 
+def _t_defensive_copies(srcs):
+    """a defensive copy of every matrix parameter at the top of every module-level function of utils.py that only reads it:
+    `A = A.copy()` (parameters named A, P, G, W, pdag without a default, not rebound in the body)"""
+    import ast
+    MATS = {"A", "P", "G", "W", "pdag", "cpdag"}
+    for pth, tree in srcs.items():
+        if not pth.endswith("utils.py"):
+            continue
+        for fn in tree.body:
+            if not isinstance(fn, ast.FunctionDef):
+                continue
+            args = fn.args
+            nodef = [a.arg for a in args.args[:len(args.args) - len(args.defaults)]]
+            bound = {x.id for x in ast.walk(fn) if isinstance(x, ast.Name) and isinstance(x.ctx, ast.Store)}
+            if any(isinstance(x, (ast.Yield, ast.YieldFrom, ast.Lambda)) for x in ast.walk(fn)):
+                continue
+            k = 1 if fn.body and isinstance(fn.body[0], ast.Expr) and isinstance(fn.body[0].value, ast.Constant) and isinstance(fn.body[0].value.value, str) else 0
+            for nm in nodef:
+                if nm in MATS and nm not in bound:
+                    st_ = ast.Assign(targets=[ast.Name(nm, ast.Store())], value=ast.Call(func=ast.Attribute(value=ast.Name(nm, ast.Load()), attr="copy", ctx=ast.Load()), args=[], keywords=[]))
+                    fn.body.insert(k, ast.copy_location(st_, fn.body[min(k, len(fn.body) - 1)]))
+
+
+def _t_local_snapshots(srcs):
+    """every matrix parameter that a utils function only reads is read through a local snapshot: `A_ = A.copy()` first, `A_` wherever `A` stood"""
+    import ast
+    MATS = {"A", "P", "G", "W", "pdag", "cpdag"}
+    for pth, tree in srcs.items():
+        if not pth.endswith("utils.py"):
+            continue
+        for fn in tree.body:
+            if not isinstance(fn, ast.FunctionDef):
+                continue
+            args = fn.args
+            nodef = [a.arg for a in args.args[:len(args.args) - len(args.defaults)]]
+            bound = {x.id for x in ast.walk(fn) if isinstance(x, ast.Name) and isinstance(x.ctx, ast.Store)}
+            if any(isinstance(x, (ast.Yield, ast.YieldFrom, ast.Lambda)) for x in ast.walk(fn)):
+                continue
+            k = 1 if fn.body and isinstance(fn.body[0], ast.Expr) and isinstance(fn.body[0].value, ast.Constant) and isinstance(fn.body[0].value.value, str) else 0
+            for nm in nodef:
+                if nm in MATS and nm not in bound:
+                    for x in ast.walk(fn):
+                        if isinstance(x, ast.Name) and x.id == nm:
+                            x.id = nm + "_"
+                    st_ = ast.Assign(targets=[ast.Name(nm + "_", ast.Store())], value=ast.Call(func=ast.Attribute(value=ast.Name(nm, ast.Load()), attr="copy", ctx=ast.Load()), args=[], keywords=[]))
+                    fn.body.insert(k, ast.copy_location(st_, fn.body[min(k, len(fn.body) - 1)]))
+
+
 def _t_np_operators(srcs):
     """operators spelled as numpy functions where that is the same for every operand the code can see: a @ b -> np.matmul(a, b), np.eye(n) -> np.identity(n)"""
     import ast
@@ -1118,7 +1166,7 @@ def _t_accept_lists(srcs):
                         n.body[k:k] = ast.parse("if not isinstance(%s, np.ndarray):\n    %s = np.array(%s)\n" % (a.arg, a.arg, a.arg)).body
 
 
-TREE_TRANSFORMS = {"@coerce_params": _t_coerce_params, "@accept_lists": _t_accept_lists, "@early_exit": _t_early_exit, "@numpy_alias": _t_numpy_alias, "@kwargs_calls": _t_kwargs_calls, "@strip_docs_annotate": _t_strip_docs_annotate, "@logging": _t_logging, "@traced": _t_traced, "@kwonly": _t_kwonly, "@extra_param": _t_extra_param, "@try_reraise": _t_try_reraise, "@np_functions": _t_np_functions, "@small_idioms": _t_small_idioms, "@flip_comparisons": _t_flip_comparisons, "@else_after_exit": _t_else_after_exit, "@comp_to_loop": _t_comp_to_loop, "@logic_spellings": _t_logic_spellings, "@local_aliases": _t_local_aliases, "@method_spellings": _t_method_spellings, "@statement_spellings": _t_statement_spellings, "@loop_spellings": _t_loop_spellings, "@import_styles": _t_import_styles, "@np_constructors": _t_np_constructors, "@literal_spellings": _t_literal_spellings, "@arith_spellings": _t_arith_spellings, "@np_operators": _t_np_operators, "@private_module": _t_private_module, "@swap_branches": _t_swap_branches, "@name_conditions": _t_name_conditions, "@ternary_to_if": _t_ternary_to_if,
+TREE_TRANSFORMS = {"@coerce_params": _t_coerce_params, "@accept_lists": _t_accept_lists, "@early_exit": _t_early_exit, "@numpy_alias": _t_numpy_alias, "@kwargs_calls": _t_kwargs_calls, "@strip_docs_annotate": _t_strip_docs_annotate, "@logging": _t_logging, "@traced": _t_traced, "@kwonly": _t_kwonly, "@extra_param": _t_extra_param, "@try_reraise": _t_try_reraise, "@np_functions": _t_np_functions, "@small_idioms": _t_small_idioms, "@flip_comparisons": _t_flip_comparisons, "@else_after_exit": _t_else_after_exit, "@comp_to_loop": _t_comp_to_loop, "@logic_spellings": _t_logic_spellings, "@local_aliases": _t_local_aliases, "@method_spellings": _t_method_spellings, "@statement_spellings": _t_statement_spellings, "@loop_spellings": _t_loop_spellings, "@import_styles": _t_import_styles, "@np_constructors": _t_np_constructors, "@literal_spellings": _t_literal_spellings, "@arith_spellings": _t_arith_spellings, "@defensive_copies": _t_defensive_copies, "@local_snapshots": _t_local_snapshots, "@np_operators": _t_np_operators, "@private_module": _t_private_module, "@swap_branches": _t_swap_branches, "@name_conditions": _t_name_conditions, "@ternary_to_if": _t_ternary_to_if,
                    "@shim": _t_shim}
 
 
